@@ -244,6 +244,31 @@ func (Prop) Gen(seed int64, tier string) *harness.Case {
 		}
 		w.Clients = [][]Op{c0, c1, c2, c3}
 		total = 4 * rep
+	} else if !readMostly && r.Intn(12) == 0 {
+		// a listing (or copy) of S while another client WRITES inside a module bound in S: whatever S does with the
+		// values it holds - print them, copy them - must not walk into the module's tables behind the module's lock
+		w.Child, w.KMod = true, true
+		w.Clients, total = nil, 0
+		rep := 3 + r.Intn(6)
+		if tier == "race" {
+			rep = 20 + r.Intn(30)
+		}
+		var c0, c1 []Op
+		for i := 0; i < rep; i++ {
+			c0 = append(c0, Op{Kind: []string{"String", "String", "Copy", "DeepCopy", "ValueSymbols"}[r.Intn(5)], Val: 1000 + i})
+			c1 = append(c1, Op{Kind: []string{"DefineK", "DefineK", "DeleteK"}[r.Intn(3)], Val: 2000 + i})
+		}
+		w.Clients = [][]Op{c0, c1}
+		if nClients > 2 && tier != "race" {
+			var c2 []Op
+			for i := 0; i < rep; i++ {
+				c2 = append(c2, Op{Kind: []string{"Get", "Set", "Define"}[r.Intn(3)], Name: valNames[0], Val: 3000 + i})
+			}
+			w.Clients = append(w.Clients, c2)
+		}
+		for _, ops := range w.Clients {
+			total += len(ops)
+		}
 	} else if !readMostly && r.Intn(10) == 0 {
 		// a scope that was large and is being emptied while another client keeps setting and reading one of the
 		// survivors: what table maintenance triggered by deletions (shrinking, rebuilding) has to survive
@@ -460,8 +485,8 @@ func apply(st state, op Op, rooted bool) (state, Out) {
 	case "EnvFromPath2":
 		// ["k", "m"]: K (when it is a module) never holds anything itself
 		return st, Out{Err: "undef"}
-	case "DeleteK":
-		// a write on K's own (always empty) table: takes K's write lock, changes nothing
+	case "DeleteK", "DefineK":
+		// a write on K's own table (which holds nothing but the name these two use): takes K's write lock, changes nothing in S
 		return st, Out{}
 	}
 	return st, Out{Err: "unknown-op"}
@@ -681,6 +706,10 @@ func (r *runner) exec(rc *rec) {
 	case "DeleteK":
 		if r.K != nil {
 			r.K.Delete("zq")
+		}
+	case "DefineK":
+		if r.K != nil {
+			r.K.Define("zq", int64(op.Val))
 		}
 	case "EnvFromPath2":
 		m, err := e.GetEnvFromPath([]string{op.Name, "m"})
